@@ -115,14 +115,31 @@ fn bad_reply(rng: &mut impl RngCore) -> Vec<u8> {
     b
 }
 
-fn run_twin(c: &mut Ctx, m: &'static Merchant, name: &str, cust0: u64, merch0: u64, steps: usize, restore_every: bool) {
+fn run_twin(c: &mut Ctx, m: &'static Merchant, name: &str, cust0: u64, merch0: u64, steps: usize, restore_every: bool, zero_draw: Option<usize>) {
     let mut rng = c.rng(name);
     let ctxb = name.as_bytes().to_vec();
     let cid = new_channel_id(m, &mut rng, b"m", b"c");
     // both tracks start from one request made with one RNG stream
     let seed = seed_of(&mut rng);
-    let ra = Sess::request(m, &mut ScriptRng::new(seed), cid, cust0, merch0, &ctxb);
-    let rb = Sess::request(m, &mut ScriptRng::new(seed), cid, cust0, merch0, &ctxb);
+    // optional crafted randomness: one scalar sample of the request is zero on both tracks (a zero
+    // blinding factor, nonce or secret is a value the customer can hold; it must restore like any other)
+    let scripted = |z: Option<usize>| {
+        let mut r = ScriptRng::new(seed);
+        if let Some(k) = z {
+            let mut dry = ScriptRng::new(seed);
+            let _ = Sess::request(m, &mut dry, cid, cust0, merch0, &ctxb);
+            let d64 = dry.draws_of_len(64);
+            if !d64.is_empty() {
+                r.inject(d64[k % d64.len()], vec![0u8; 64]);
+            }
+        }
+        r
+    };
+    let ra = Sess::request(m, &mut scripted(zero_draw), cid, cust0, merch0, &ctxb);
+    let rb = Sess::request(m, &mut scripted(zero_draw), cid, cust0, merch0, &ctxb);
+    if zero_draw.is_some() {
+        c.count("histories_with_a_zero_scalar_sample", 1);
+    }
     let ((a, pa), (b, pb)) = match (ra, rb) {
         (Ok(x), Ok(y)) => (x, y),
         _ => return c.inconclusive("C20: request failed"),
@@ -189,8 +206,16 @@ fn run_twin(c: &mut Ctx, m: &'static Merchant, name: &str, cust0: u64, merch0: u
         t.trail.push(format!("pay {}", amt));
         let seed = seed_of(&mut rng);
         // start on both tracks with identical randomness
-        let ra = t.a.c_start(&mut ScriptRng::new(seed), pa_, &ctxb);
-        let rb = t.b.c_start(&mut ScriptRng::new(seed), pa_, &ctxb);
+        let mk = |z: Option<usize>| {
+            let mut r = ScriptRng::new(seed);
+            if let Some(k) = z {
+                // scalar draws of start are 64-byte draws; aim at one of the first forty
+                r.inject_nth_of_len(64, (k * 7 + step * 3) % 40, vec![0u8; 64]);
+            }
+            r
+        };
+        let ra = t.a.c_start(&mut mk(zero_draw), pa_, &ctxb);
+        let rb = t.b.c_start(&mut mk(zero_draw), pa_, &ctxb);
         c.eval();
         let started = match (ra, rb) {
             (Ok(Ok(x)), Ok(Ok(y))) => {
@@ -226,6 +251,13 @@ fn run_twin(c: &mut Ctx, m: &'static Merchant, name: &str, cust0: u64, merch0: u
         }
         let sig = match t.a.m_allow(&mut rng, pa_, &nonce, &proof, &ctxb) {
             Ok(Some(s)) => s,
+            _ if zero_draw.is_some() => {
+                // a zero sample can make the proof itself degenerate (e.g. an all-identity blinded
+                // signature, which does not even decode): both tracks produced the same bytes, the
+                // history simply ends here
+                c.count("payment_not_approved_under_crafted_randomness", 1);
+                return;
+            }
             _ => return c.inconclusive("C20: honest pay proof refused (C04's subject)"),
         };
         let bad = bad_reply(&mut rng);
@@ -290,7 +322,16 @@ pub fn run(c: &mut Ctx) {
         for every in [true, false] {
             let name = format!("twin{}/{}-{}/{}", i, cust, merch, if every { "every" } else { "random" });
             c.case(&name, |c| {
-                if let Err(p) = guard(|| run_twin(c, m, &name, cust, merch, steps, every)) {
+                if let Err(p) = guard(|| run_twin(c, m, &name, cust, merch, steps, every, None)) {
+                    c.violation(&format!("C20 panic loc={}", repo_rel(&p.location)), json!({"panic": p.message}));
+                }
+            });
+        }
+        // crafted randomness: the i-th scalar sample of the request (and one of each start) is zero
+        if i < c.tier.pick(14usize, 40) {
+            let name = format!("twin{}/{}-{}/zero-sample{}", i, cust, merch, i);
+            c.case(&name, |c| {
+                if let Err(p) = guard(|| run_twin(c, m, &name, cust, merch, steps.min(3), true, Some(i))) {
                     c.violation(&format!("C20 panic loc={}", repo_rel(&p.location)), json!({"panic": p.message}));
                 }
             });
